@@ -231,7 +231,36 @@ func ptrKey(v Value) string {
 
 func init() {
 	reg := func(name string, h intrFn) { intrinsics[name] = h }
+	// preemptPoint explores, for harnesses that ask for it, a context switch right before a lock
+	// operation: the state forks into "goes on" and "the other goroutines run first".
+	preemptPoint := func(in *Interp, s *State, c *callCtx) ([]*State, bool) {
+		if !in.cfg.PreemptAtSync {
+			return nil, false
+		}
+		th := c.th
+		switch th.preempt {
+		case 0:
+			if in.live(s) <= 1 {
+				return nil, false
+			}
+			o := s.clone()
+			o.threads[o.cur].preempt = 1
+			th.preempt = 2
+			return []*State{o}, true // both states re-execute the call
+		case 1:
+			th.preempt = 3
+			in.block(s, th)
+			s.stall = -1 // a yield, not a stall
+			return nil, true
+		case 3:
+			th.preempt = 2
+		}
+		return nil, false
+	}
 	lock := func(in *Interp, s *State, c *callCtx) (Value, []*State, bool) {
+		if forks, stop := preemptPoint(in, s, c); stop {
+			return nil, forks, false
+		}
 		k := ptrKey(c.args[0])
 		l := s.locks[k]
 		if l.Writer || l.Readers > 0 {
@@ -240,6 +269,7 @@ func init() {
 		}
 		l.Writer = true
 		s.locks[k] = l
+		c.th.preempt = 0
 		return nil, nil, true
 	}
 	unlock := func(in *Interp, s *State, c *callCtx) (Value, []*State, bool) {
@@ -269,6 +299,9 @@ func init() {
 	reg("(*sync.RWMutex).Unlock", unlock)
 	reg("(*sync.RWMutex).TryLock", tryLock)
 	reg("(*sync.RWMutex).RLock", func(in *Interp, s *State, c *callCtx) (Value, []*State, bool) {
+		if forks, stop := preemptPoint(in, s, c); stop {
+			return nil, forks, false
+		}
 		k := ptrKey(c.args[0])
 		l := s.locks[k]
 		if l.Writer {
@@ -277,6 +310,7 @@ func init() {
 		}
 		l.Readers++
 		s.locks[k] = l
+		c.th.preempt = 0
 		return nil, nil, true
 	})
 	reg("(*sync.RWMutex).RUnlock", func(in *Interp, s *State, c *callCtx) (Value, []*State, bool) {
